@@ -31,7 +31,7 @@ pub const MAX_DEPTH: usize = 6;
 const POOL_DEPTH: usize = 4;
 
 pub fn path_valid(p: &[u8]) -> bool {
-    p.iter().all(|s| *s % SEGS.len() as u8 < N_VALID)
+    p.iter().all(|s| *s % (SEGS.len() as u8) < N_VALID)
 }
 
 pub fn path_text(p: &[u8]) -> String {
